@@ -275,6 +275,39 @@ Proof.
   intros Ht Hg. rewrite <- (roots_eq_spec_roots cfg ns g Hg). exact (platform_error_iff cfg ns g Ht).
 Qed.
 
+(* the same traversal started from the property's roots satisfies the full statements *)
+Lemma spec_roots_in cfg ns g r : In r (spec_roots cfg ns g) -> r < size g.
+Proof. unfold spec_roots. rewrite filter_In, in_seq. intros [[_ H] _]. exact H. Qed.
+
+Lemma selection_spec_is_closure cfg ns g S :
+  topo g -> select_for_build_spec cfg ns g = Selected S ->
+  forall n, In n S <-> exists r, In r (spec_roots cfg ns g) /\ reach_refl g n r.
+Proof.
+  intros Ht Hs n. unfold select_for_build_spec in Hs.
+  pose proof (select_roots_spec g (plat_okb cfg ns) Ht (spec_roots cfg ns g)) as Hspec.
+  destruct (select_roots g (plat_okb cfg ns) (spec_roots cfg ns g)) as [m |]; [| discriminate].
+  injection Hs as Hs. subst S. destruct Hspec as [H1 _].
+  rewrite normalize_spec, H1. split.
+  - intros [H _]. exact H.
+  - intros [r [Hr Hx]]. split; [exists r; split; assumption |].
+    apply spec_roots_in in Hr.
+    destruct Hx as [E | Hx]; [subst; exact Hr |].
+    pose proof (reach_topo_lt g n r Ht Hx). lia.
+Qed.
+
+Lemma platform_error_spec_iff cfg ns g :
+  topo g ->
+  (select_for_build_spec cfg ns g = PlatformError <->
+   exists r n, In r (spec_roots cfg ns g) /\ reach g n r /\ node_matches_platform cfg (attr ns n) = false).
+Proof.
+  intro Ht. unfold select_for_build_spec.
+  pose proof (select_roots_spec g (plat_okb cfg ns) Ht (spec_roots cfg ns g)) as Hspec.
+  destruct (select_roots g (plat_okb cfg ns) (spec_roots cfg ns g)) as [m |].
+  - destruct Hspec as [_ H2]. split; [discriminate |].
+    intros [r [n [Hr [Hx Hp]]]]. specialize (H2 r n Hr Hx). unfold plat_okb in H2. congruence.
+  - split; [| reflexivity]. intros _. exact Hspec.
+Qed.
+
 (* refutation witnesses.  //:plain (no tag), alias //:al -> //:plain, //:tagged (tag x);
    grog build --tag=x //... *)
 Definition lbl (n : str) : label := mkLabel [] n.
